@@ -251,3 +251,31 @@ pub fn nt_misc<const B: usize, const L: usize>(nd: &mut Nd) {
     Integer::dec(&mut x);
     chk!(nd, "C20.ni.dec", x == a.wrapping_sub(Uint::<B, L>::ONE));
 }
+
+/// iterator Sum / Product by value and by reference = left fold of the inherent wrapping ops from ZERO / ONE
+/// (wrapping_mul stubbed by a tagged mix), 0..=3 elements
+pub fn sum_product<const B: usize, const L: usize>(nd: &mut Nd) {
+    let xs: [Uint<B, L>; 3] = [nd.uint(), nd.uint(), nd.uint()];
+    let n = nd.upto(3);
+    let mut s = Uint::<B, L>::ZERO;
+    let mut p = if B == 0 { Uint::<B, L>::ZERO } else { Uint::<B, L>::ONE };
+    let mut i = 0;
+    while i < 3 {
+        if i < n {
+            s = s.wrapping_add(xs[i]);
+            if B > 0 {
+                p = p.wrapping_mul(xs[i]);
+            }
+        }
+        i += 1;
+    }
+    let s1: Uint<B, L> = xs[..n].iter().copied().sum();
+    let s2: Uint<B, L> = xs[..n].iter().sum();
+    let p1: Uint<B, L> = xs[..n].iter().copied().product();
+    let p2: Uint<B, L> = xs[..n].iter().product();
+    cov!(nd, "empty", n == 0);
+    chk!(nd, "C20.sum.by_value", s1 == s);
+    chk!(nd, "C20.sum.by_ref", s2 == s);
+    chk!(nd, "C20.product.by_value", p1 == p);
+    chk!(nd, "C20.product.by_ref", p2 == p);
+}
